@@ -27,6 +27,7 @@ POLICY_TEXTS = [
     'permit(principal, action == Action::"a", resource in Folder::"x") when { principal in [User::"a", User::"b"] && "\\u{1F600}\\n\\t\\\\\\"" != "" };',
     'permit(principal,action,resource) when { datetime("2024-01-01T00:00:00Z").offset(duration("1d2h")).toDate() < datetime("2024-02-01") };',
     'permit(principal,action,resource) when { context.a.b.c["d"].e has f.g.h };',
+    'permit(principal,action,resource) when { -decimal("1.0") == -duration("1h").toHours() || - -ip("1.1.1.1").isLoopback() || -(datetime("2024-01-01")) < 1 };',
 ]
 
 
